@@ -231,7 +231,7 @@ func CheckMetafile(rc *RunCtx, rec *BuildRec, label string) *Violation {
 			for _, im := range m.Imports {
 				wantKind := "import-statement"
 				switch im.Style {
-				case ImpDynamic:
+				case ImpDynamic, ImpDynamicList:
 					wantKind = "dynamic-import"
 				case ImpRequire:
 					wantKind = "require-call"
@@ -690,6 +690,8 @@ func keysOfB(m map[string]bool) []string {
 	return ks
 }
 
+var reLinkerTail = regexp.MustCompile(`^(var export_\w+ = .*;|[\w$]+\(\);)$`)
+
 func checkSegments(rc *RunCtx, rec *BuildRec, mf *Metafile, metaOut map[string]MetaOutput, outBytes map[string]string, viol func(class, key, f string, a ...interface{}) *Violation) *Violation {
 	if !rec.Opts.Bundle || rec.Opts.MinifyWhitespace {
 		return nil
@@ -733,20 +735,62 @@ func checkSegments(rc *RunCtx, rec *BuildRec, mf *Metafile, metaOut map[string]M
 		for _, h := range hits {
 			seen[h.key]++
 		}
-		for i := 0; i+1 < len(hits); i++ {
-			h, next := hits[i], hits[i+1]
+		// the last module of an ES module output is followed by the export clause
+		lastEnd := -1
+		if isJS && rec.Opts.Format == api.FormatESModule && len(hits) > 0 {
+			if i := strings.LastIndex(c, "\nexport {\n"); i >= hits[len(hits)-1].end {
+				lastEnd = i + 1
+			}
+		}
+		for i := 0; i < len(hits); i++ {
+			h := hits[i]
 			if seen[h.key] != 1 {
 				continue // ambiguous
 			}
+			var next hit
+			if i+1 < len(hits) {
+				next = hits[i+1]
+			} else if lastEnd >= 0 {
+				// lastEnd is the index just after the newline that precedes "export {": either
+				// the newline that ends the module's last line or that of a blank separator line
+				next = hit{start: lastEnd}
+				if lastEnd-2 < h.end || c[lastEnd-2] != '\n' {
+					next.start = lastEnd + 1 // no blank line: compensate the strip below
+				}
+				rc.Probe("last_segment_checked")
+			} else {
+				continue
+			}
 			segEnd := next.start
-			if segEnd > h.end && c[segEnd-1] == '\n' {
+			if segEnd > h.end && (c[segEnd-1] == '\n' || (i+1 == len(hits) && segEnd == lastEnd+1)) {
 				segEnd-- // the blank line that separates modules
 			}
 			seg := segEnd - h.end
 			got := mo.Inputs[h.key].BytesInOutput
 			rc.Probe("segment_checked")
+			if seg != got && i+1 == len(hits) {
+				// after the last module of an entry point the linker may emit statements of its
+				// own (a call of the module's lazy initialiser, re-export temporaries) before the
+				// export clause; they belong to no input
+				end := segEnd
+				for end > h.end {
+					ls := strings.LastIndex(c[h.end:end-1], "\n") + 1 + h.end
+					if !reLinkerTail.MatchString(c[ls : end-1]) {
+						break
+					}
+					end = ls
+					if end-h.end == got {
+						seg = got
+						rc.Probe("last_segment_linker_statements_stripped")
+						break
+					}
+				}
+			}
 			if seg != got {
 				if debugOn {
+					if i+1 == len(hits) {
+						fmt.Printf("LASTSEG delta=%d key=%s tail=%q\n", seg-got, h.key, c[h.end:])
+					}
 					rc.Probe(fmt.Sprintf("segment_delta_%d", seg-got))
 					continue
 				}
